@@ -90,6 +90,8 @@ let layout_of (name : string) : layout =
   | "i64u16" -> { kty = fty 8 true; vty = fty 2 false }
   | "u8u8" -> { kty = fty 1 false; vty = fty 1 false }
   | "u16u16" -> { kty = fty 2 false; vty = fty 2 false }
+  | "u128u64" -> { kty = fty 16 false; vty = fty 8 false }
+  | "f64u64" -> { kty = fty 8 false; vty = fty 8 false }   (* byte layout only: such cases are never tied to the model *)
   | s -> failwith ("layout " ^ s)
 
 let sort_uniq_z (l : z list) : z list =
@@ -334,7 +336,17 @@ let run_arr (c : case) =
     match kv c.header "raw" with
     | Some raw ->
       (match adecode pnat ty (bytes_of_hex raw) with
-       | Some s -> s, None | None -> failwith "raw bytes do not decode")
+       | Some s ->
+         (* the reference starts from the members the raw state denotes when that state is
+            well formed (count within the slots, strictly ascending prefix) *)
+         let nslots = List.length s.aslots and cnt = int_of_n s.alen in
+         let rec asc = function
+           | a :: (b :: _ as tl) -> (match cmp_cell a b with Lt0 -> asc tl | _ -> false)
+           | _ -> true in
+         let rec take k l = if k = 0 then [] else match l with [] -> [] | x :: tl -> x :: take (k - 1) tl in
+         let mem = if cnt <= nslots then take cnt s.aslots else [] in
+         if cnt <= nslots && asc mem then s, Some { asbound_slots = n_of_int nslots; asmem = mem } else s, None
+       | None -> failwith "raw bytes do not decode")
     | None ->
       let slots = n_of_int (kvn c.header "slots") in
       ainit_c [] [] slots, Some { asbound_slots = slots; asmem = [] } in
@@ -342,6 +354,13 @@ let run_arr (c : case) =
   let s = ref s0 and sp = ref sp0 in
   (try
      List.iteri (fun i t ->
+         if t = ["openmut"] then begin
+           (* opening the mutable view writes nothing: the model has no handle *)
+           let bytes = aencode pnat ty !s in
+           pr "%d r=U d=%s" i (fnv bytes);
+           if !full then pr " b=%s" (hex_of_bytes bytes);
+           pr "\n"
+         end else
          match parse_arr_op t with
          | None -> failwith ("bad arr op " ^ String.concat " " t)
          | Some o ->
